@@ -22,7 +22,7 @@ RULE = (
     "ins_code{2} x res_name{2} (L = 0..4, thorough 0..5), values instantiated from the palette the seed selects; "
     "each pattern as AtomArray (and as depth-2 AtomArrayStack per the stated stride); all residue_* / chain_* "
     "views compared with a per-atom loop; index arrays: every array of length <= 2 over [-2, L+1] when L <= 3, "
-    "else identity, reversal and 2-4 refused arrays (see bounds). A seg case is non-trivial when 1 < #residues < L or "
+    "else identity and reversal (+ 4 refused arrays at level full, see bounds). A seg case is non-trivial when 1 < #residues < L or "
     "1 < #chains < L (some but not all neighbouring atoms are separated). "
     "graph: every labelled simple graph on v vertices (all 2^(v(v-1)/2) edge sets), two bond-list encodings each; "
     "non-trivial when it has >= 1 bond and (>= 2 components or a cycle). "
@@ -77,9 +77,10 @@ def bounds(tier):
         "seg_alphabet": NLET,
         "seg_palettes": "palette[seed % 5]" if q else "palette 0 and palette[1 + seed % 4] for L <= 4; palette 0 for L = 5",
         "seg_view_set": "L <= 3: full (every index array of length <= 2 over [-2, L+1], 7 reducing functions, 3 spread "
-                        "inputs); L = 4: %s; L = 5: core" % ("core (identity + reversed + 2 refused index arrays, 2 "
+                        "inputs); L = 4: %s; L = 5: core" % ("core (identity + reversed index arrays, 2 "
                         "reducing functions, 1 spread input)" if q else "full apart from index arrays (identity, "
                         "reversed, 4 refused)"),
+        "seg_stack_views": "as for arrays, but index arrays are never enumerated (identity, reversed, 4 refused)",
         "seg_stack_stride": "all for L <= 3, pattern index %% %d == 1 for L = 4%s" % (
             (8, "") if q else (4, ", index % 16 == 5 for L = 5")),
         "graph_max_vertices": 6 if q else 7,
@@ -215,7 +216,7 @@ APPLY_FULL = ("sum_int", "mean_axis0", "minmax_arr", "len", "first_str", "any_bo
 def index_arrays(n, enum, full):
     """(index list, class) ; class in valid / negative / beyond_end / empty_indices.
     enum: every array of length <= 2 over [-2, n+1] (plus identity and reversal);
-    otherwise identity, reversal and 4 (full) or 2 (core) refused arrays."""
+    otherwise identity and reversal, plus 4 refused arrays at level full."""
     out = []
 
     def cls(ix):
@@ -243,7 +244,7 @@ def index_arrays(n, enum, full):
     elif full:
         cand += [ident, ident[::-1], [-1], [n], [n - 1, n], [-1, 0]]
     else:
-        cand += [ident, ident[::-1], [-1], [n]]
+        cand += [ident, ident[::-1]]
     for ix in cand:
         out.append((ix, cls(ix)))
     return out
@@ -325,7 +326,7 @@ def check_pattern(ctx, case, rows, as_stack, full):
         else:
             run("get_chains", empty, ((nseg,), [rows[s][0] for s in starts]), lambda: F["names"](arr))
         # --- index views --------------------------------------------------
-        for ix, icls in index_arrays(n, n <= 3, full):
+        for ix, icls in index_arrays(n, n <= 3 and not as_stack, full):
             ixa = np.array(ix, dtype=np.int64)
             k = len(ix)
             if icls in ("negative", "beyond_end"):
